@@ -288,11 +288,16 @@ NeverUnverified ==
     /\ \A s \in Slots : Unverified(slot[s]) => s \in taint
     /\ \A p \in All : (cfg[p].val /\ Unverified(res[p])) => S(p) \in taint
 
-\* a call that found a complete cache entry and was not told to download again uses no network
-OfflineWhenCached == \A p \in All : (hit[p] /\ ~cfg[p].force) => att[p] = 0
+\* a call that found a complete cache entry and was not told to download again uses no network.  "Told to download again"
+\* needs BOTH flags: download_if_missing = FALSE means "never try to download" (its docstring), so (dim FALSE, force TRUE)
+\* on a cached dataset is served from the cache like any other request (seed C19j: `refresh = available and force`)
+Refresh(p) == cfg[p].dim /\ cfg[p].force
+OfflineWhenCached == \A p \in All : (hit[p] /\ ~Refresh(p)) => att[p] = 0
 \* ... and is served from it, whatever download_if_missing says ("a cached dataset is served without network access")
-ServedWhenCached == \A p \in All : (pc[p] = "done" /\ hit[p] /\ ~cfg[p].force) => (res[p][1] = "data" /\ res[p][2] = cfg[p].d)
-OfflineStep == [][\A p \in All : (hit[p] /\ ~cfg[p].force) => att'[p] = att[p]]_vars
+ServedWhenCached == \A p \in All : (pc[p] = "done" /\ hit[p] /\ ~Refresh(p)) => (res[p][1] = "data" /\ res[p][2] = cfg[p].d)
+OfflineStep == [][\A p \in All : (hit[p] /\ ~Refresh(p)) => att'[p] = att[p]]_vars
+\* download_if_missing = FALSE: no network attempt at all, cached or not
+NeverDownloadsWhenToldNotTo == \A p \in All : ~cfg[p].dim => att[p] = 0
 
 \* at most n_retries + 1 attempts; a network error leaves the call only after n_retries + 1 failures;
 \* a payload with another checksum ends a validating call with OSError
